@@ -1020,6 +1020,10 @@ func opValueChangeJournal(ctx context.Context, pc *uint64, interpreter *EVMInter
 		return nil, errors.New("type size out of range")
 	}
 
+	if offsetU64+typeSizeU64 > 32 {
+		return nil, errors.New("type size out of range")
+	}
+
 	contract := scope.Contract.Address()
 	newVal := interpreter.evm.StateDB.GetState(contract, storageSlot.Bytes32())
 	start, end := 32-offsetU64-typeSizeU64, 32-offsetU64
